@@ -386,7 +386,7 @@ func c10Units(tier string) []*Unit {
 			us = append(us, c10VarUnit(loc, kind))
 		}
 	}
-	us = append(us, c10EnvUnit(false, false), c10EnvUnit(true, false), c10EnvUnit(false, true), c10EnvUnit(true, true), c10SpecialUnit(), c10TwiceUnit())
+	us = append(us, c10EnvUnit(false, false), c10EnvUnit(true, false), c10EnvUnit(false, true), c10EnvUnit(true, true), c10SpecialUnit(), c10TwiceUnit(), c10MiscUnit())
 	return us
 }
 
@@ -434,6 +434,106 @@ func c10TwiceUnit() *Unit {
 					}
 				}
 			}
+		}
+		res.Extra["samples"] = samples
+		res.Stats = vlab.Stats{Scenario: name, Execs: n, States: n, Transitions: n, Outcomes: 2, Exhaustive: true}
+		return res
+	}}
+}
+
+// further places where a name is resolved: templates inside an include statement (global vars
+// rank above the OS environment there as well); a task-level dotenv file that another task of
+// the same invocation rewrites is read again
+func c10MiscUnit() *Unit {
+	name := "include-statement-templates-and-dotenv-reread"
+	return &Unit{Name: name, Weight: 1, Custom: func(u *Unit, dir string, deadline time.Time) *vlab.UnitResult {
+		res := &vlab.UnitResult{SigCounts: map[string]int{}, Extra: map[string]any{}}
+		n := 0
+		var samples []any
+		add := func(v vlab.Violation, files map[string]string, args []string) {
+			v.Scenario = name
+			v.Input = map[string]any{"files": files, "args": args}
+			res.SigCounts[v.Sig]++
+			if res.SigCounts[v.Sig] == 1 {
+				res.Violations = append(res.Violations, v)
+			}
+		}
+		write := func(files map[string]string) {
+			os.RemoveAll(dir)
+			os.MkdirAll(dir, 0o755)
+			for rel, c := range files {
+				p := filepath.Join(dir, rel)
+				os.MkdirAll(filepath.Dir(p), 0o755)
+				os.WriteFile(p, []byte(c), 0o644)
+			}
+		}
+		// 1. include statement templates: vars / dir / taskfile
+		for _, where := range []string{"vars", "dir", "taskfile"} {
+			for mask := 1; mask < 4; mask++ { // bit0: global var, bit1: OS env
+				files := map[string]string{
+					"inc-global.yml": "version: '3'\ntasks:\n  show:\n    cmds:\n      - printf '%s\\n' \"G={{.GREETING}} F=global PWD=$(basename \"$PWD\")\"\n",
+					"inc-osenv.yml":  "version: '3'\ntasks:\n  show:\n    cmds:\n      - printf '%s\\n' \"G={{.GREETING}} F=osenv PWD=$(basename \"$PWD\")\"\n",
+					"global/.keep":   "", "osenv/.keep": "",
+				}
+				root := "version: '3'\n"
+				if mask&1 != 0 {
+					root += "vars:\n  WHO: global\n"
+				}
+				inc := "includes:\n  inc:\n"
+				switch where {
+				case "vars":
+					inc += "    taskfile: ./inc-global.yml\n    vars:\n      GREETING: 'hello {{.WHO}}'\n"
+				case "dir":
+					inc += "    taskfile: ./inc-global.yml\n    dir: './{{.WHO}}'\n"
+				case "taskfile":
+					inc += "    taskfile: './inc-{{.WHO}}.yml'\n"
+				}
+				root += inc + "tasks:\n  t:\n    cmds: ['true']\n"
+				files["Taskfile.yml"] = root
+				write(files)
+				var env []string
+				if mask&2 != 0 {
+					env = []string{"WHO=osenv"}
+				}
+				want := "osenv"
+				if mask&1 != 0 {
+					want = "global"
+				}
+				args := []string{"--silent", "inc:show"}
+				so, se, rc := RunCLI(dir, env, "", args...)
+				n++
+				got := strings.TrimSpace(so)
+				ok := rc == 0
+				switch where {
+				case "vars":
+					ok = ok && strings.Contains(got, "G=hello "+want+" ")
+				case "dir":
+					ok = ok && strings.HasSuffix(got, "PWD="+want)
+				case "taskfile":
+					ok = ok && strings.Contains(got, "F="+want+" ")
+				}
+				if len(samples) < 2 {
+					samples = append(samples, map[string]any{"where": where, "sites_mask": mask, "output": got})
+				}
+				if !ok {
+					add(vlab.V("C10", "wrong_precedence", fmt.Sprintf("include_statement_%s:want=%s", where, want),
+						fmt.Sprintf("template in the include statement's %s with WHO defined at sites mask %02b (global var, OS env): got %q, the highest-priority definition is %q (status %d %s)", where, mask, got, want, rc, firstN(se, 120))), files, args)
+				}
+			}
+		}
+		// 2. a task dotenv file rewritten by another task of the same invocation
+		files := map[string]string{
+			".dyn.env": "K=old\n",
+			"Taskfile.yml": "version: '3'\nenv:\n  K: globalenv\n  N: globalenv\ntasks:\n  use:\n    dotenv: ['.dyn.env']\n    cmds:\n      - printf '%s\\n' \"K=$K N=$N\"\n" +
+				"  gen:\n    cmds:\n      - printf 'K=new\\nN=added\\n' > .dyn.env\n",
+		}
+		write(files)
+		args := []string{"--silent", "use", "gen", "use"}
+		so, se, rc := RunCLI(dir, nil, "", args...)
+		n++
+		lines := strings.Split(strings.TrimSpace(so), "\n")
+		if rc != 0 || len(lines) != 2 || lines[0] != "K=old N=globalenv" || lines[1] != "K=new N=added" {
+			add(vlab.V("C10", "wrong_env_precedence", "task_dotenv_rewritten_within_run", fmt.Sprintf("task use gen use: the commands saw %q, expected [K=old N=globalenv, K=new N=added] (task dotenv ranks above global env; the file changed in between) (status %d %s)", lines, rc, firstN(se, 120))), files, args)
 		}
 		res.Extra["samples"] = samples
 		res.Stats = vlab.Stats{Scenario: name, Execs: n, States: n, Transitions: n, Outcomes: 2, Exhaustive: true}
